@@ -484,7 +484,7 @@ def lifecycle_check(prop, tier):
         placement_part(run, prop, tier)
     if prop == "C12":
         # many cycles in one process
-        ncyc = 3000 if tier == "quick" else 100000
+        ncyc = 20000 if tier == "quick" else 100000      # > 32 768 installations in one process even in the quick tier
         cs = [{"id": 1, "mode": "cycles", "cycles": ncyc, "full": 150, "nf": 4, "pool": "rust"}]
         cg, co, _ = vlib.run_harness("lifecycle", cs, "cycles_C12", timeout=3000)
         cfgc = tlc.make_cfg("Trace_Api", {"Props": '{"C12", "ALL"}'}, "Trace_Api_C12c")
